@@ -85,6 +85,7 @@ func writeEvidence(prop, tier string, seed uint64, spec engine.PropSpec, a *Agg,
 		"heal_converged":                    a.HealConverged,
 		"heal_exempt":                       a.HealExempt,
 		"heal_rounds_max_when_converged":    a.HealRoundsMax,
+		"heal_worst_rounds_over_budget":     a.HealRatioMax,
 		"crashes":                           a.Crashes,
 		"leaderships":                       a.LeaderTerms,
 		"max_term":                          a.MaxTerm,
